@@ -104,16 +104,21 @@ pub fn parents(slot: &str, child: &MNode) -> Vec<MNode> {
 
 /// Does the real printer parenthesise `child` inside `parent`? (None = neither bare nor wrapped)
 fn wrapped_in(parent: &MNode, child: &MNode, slot: &str) -> Option<bool> {
-    let p = to_rc_format(&to_real(parent));
-    let c = to_rc_format(&to_real(child));
+    wrapped_in_with(&|n: &MNode| to_rc_format(&to_real(n)), parent, child, slot)
+}
+
+/// Does the printer `print` parenthesise `child` inside `parent`? (None = neither bare nor wrapped)
+pub fn wrapped_in_with(print: &dyn Fn(&MNode) -> String, parent: &MNode, child: &MNode, slot: &str) -> Option<bool> {
+    let p = print(parent);
+    let c = print(child);
     let probe = |inner: &str| -> String {
         // print the parent shape with a placeholder child, textually
-        let sib3 = to_rc_format(&to_real(&MNode::Lit(0, 3)));
-        let nsib = to_rc_format(&to_real(&MNode::Name(0)));
+        let sib3 = print(&MNode::Lit(0, 3));
+        let nsib = print(&MNode::Name(0));
         if slot.starts_with("binL.") || slot.starts_with("binR.") {
             let op = match parent {
                 MNode::Bin(oc, k, _, _) => {
-                    let s = to_rc_format(&to_real(&MNode::Bin(*oc, *k, Box::new(MNode::Lit(0, 2)), Box::new(MNode::Lit(0, 3)))));
+                    let s = print(&MNode::Bin(*oc, *k, Box::new(MNode::Lit(0, 2)), Box::new(MNode::Lit(0, 3))));
                     s[1..s.len() - 1].to_string()
                 }
                 _ => unreachable!(),
@@ -145,6 +150,10 @@ fn wrapped_in(parent: &MNode, child: &MNode, slot: &str) -> Option<bool> {
 
 /// the extracted table: (slot, kind) → wrapped?; Err lists entries that are context dependent
 pub fn extract_table() -> (Vec<(String, String, bool)>, Vec<String>) {
+    extract_table_with(&|n: &MNode| to_rc_format(&to_real(n)))
+}
+
+pub fn extract_table_with(print: &dyn Fn(&MNode) -> String) -> (Vec<(String, String, bool)>, Vec<String>) {
     let mut table = vec![];
     let mut bad = vec![];
     for slot in SLOTS {
@@ -153,7 +162,7 @@ pub fn extract_table() -> (Vec<(String, String, bool)>, Vec<String>) {
             let mut consistent = true;
             for child in &reps {
                 for parent in parents(slot, child) {
-                    match wrapped_in(&parent, child, slot) {
+                    match wrapped_in_with(print, &parent, child, slot) {
                         Some(b) => {
                             if let Some(s) = seen {
                                 if s != b {
@@ -175,7 +184,7 @@ pub fn extract_table() -> (Vec<(String, String, bool)>, Vec<String>) {
     (table, bad)
 }
 
-fn lean_slot(s: &str) -> String {
+pub fn lean_slot(s: &str) -> String {
     if let Some(c) = s.strip_prefix("binL.") {
         format!("(.binL .{c})")
     } else if let Some(c) = s.strip_prefix("binR.") {
@@ -184,7 +193,7 @@ fn lean_slot(s: &str) -> String {
         format!(".{s}")
     }
 }
-fn lean_kind(k: &str) -> String {
+pub fn lean_kind(k: &str) -> String {
     if let Some(c) = k.strip_prefix("lit.") {
         format!("(.lit .{c})")
     } else if let Some(c) = k.strip_prefix("bin.") {
@@ -196,22 +205,24 @@ fn lean_kind(k: &str) -> String {
 
 pub fn extract(dir: &Path) {
     let (table, bad) = extract_table();
+    write_table(dir, "ParenStringify", "parenStringify", "base/src/expressions/parser/stringify.rs::stringify prints the\n  child in parentheses (two-level trees printed with `to_rc_format`)", &table, &bad);
+}
+
+pub fn write_table(dir: &Path, file: &str, name: &str, what: &str, table: &[(String, String, bool)], bad: &[String]) {
     let mut s = String::new();
     s.push_str("import IronCalc.Formula.Syntax\n");
-    s.push_str("/-\n  GENERATED on every check by `verif_harness extract` from the running code: for every\n");
-    s.push_str("  (slot, child kind) whether base/src/expressions/parser/stringify.rs::stringify prints the\n");
-    s.push_str("  child in parentheses (two-level trees printed with `to_rc_format`). Do not edit.\n-/\n");
+    s.push_str(&format!("/-\n  GENERATED on every check by `verif_harness extract` from the running code: for every\n  (slot, child kind) whether {what}. Do not edit.\n-/\n"));
     s.push_str("namespace IronCalc.Generated\nopen IronCalc.Formula\n\n");
     s.push_str("/-- the (slot, kind) pairs the real printer parenthesises -/\n");
-    s.push_str("def parenStringifyTrue : List (Slot × Kind) := [\n");
+    s.push_str(&format!("def {name}True : List (Slot × Kind) := [\n"));
     let trues: Vec<String> = table.iter().filter(|(_, _, b)| *b).map(|(sl, k, _)| format!("  ({}, {})", lean_slot(sl), lean_kind(k))).collect();
     s.push_str(&trues.join(",\n"));
     s.push_str("\n]\n\n");
-    s.push_str("def parenStringify : Table := fun s k => parenStringifyTrue.contains (s, k)\n\n");
+    s.push_str(&format!("def {name} : Table := fun s k => {name}True.contains (s, k)\n\n"));
     s.push_str(&format!("/-- entries where the printer's decision is not a function of (slot, kind): {} -/\n", bad.len()));
-    s.push_str(&format!("def parenStringifyContextDependent : List String := {:?}\n\n", bad));
+    s.push_str(&format!("def {name}ContextDependent : List String := {:?}\n\n", bad));
     s.push_str("end IronCalc.Generated\n");
-    super::write_if_changed(&dir.join("ParenStringify.lean"), &s);
+    super::write_if_changed(&dir.join(format!("{file}.lean")), &s);
 }
 
 // ------------------------------------------------------------------------------------------
